@@ -1,7 +1,8 @@
 """C15 - a run visits every time node once, in order, calling hooks in stack order.
 
 Theorems: lean/ArmiVerif/Props/C15.lean over lean/ArmiVerif/Model/Schedule.lean.
-Tie: a real `Operator` on the smallest test reactor whose stack is replaced by recording
+Tie (stack construction): add/remove/get sequences and createInterfaces on a real Operator vs Model/IfaceStack.lean.
+Tie (schedule): a real `Operator` on the smallest test reactor whose stack is replaced by recording
 `Interface` subclasses (generated order / enabled / bolForce / reverseAtEOL / deferred / halting /
 real `TightCoupler`s with scripted convergence); the event log (hook, interface, arguments,
 r.p.cycle, r.p.timeNode) of `o.operate()` is compared exactly with `Schedule.run`.
@@ -24,8 +25,10 @@ PARTIAL = ("PROVED on the model: run_shape (run = independent declarative schedu
            "fullCycles_range, halt_stops_and_EOL, complete_run, coupling_iters_converged / _cap, coupling_calls, "
            "cum_node_inverse (+ _right), cum_step_inverse, prev_node_spec, allNodes_numbering, visited_full_run, "
            "cum_numbering_is_visit_order (+ _index), steps_sum_simple / _detailed, steps_detailed_length, steps_cumulative_sum. "
-           "CORRESPONDENCE ONLY: interface construction rules (createInterfaces ordering by STACK_ORDER, dependency "
-           "processing, addInterface replacement by function); which configurations the code refuses (wellFormed). "
+           "Stack construction (Model/IfaceStack.lean): getInterface_spec, pyInsert_spec, addInterface_keeps_order, "
+           "addInterface_duplicate_name, names_unique(_step), sortByOrder_perm / _sorted / _stable, createInterfaces_sorted. "
+           "CORRESPONDENCE ONLY: _processInterfaceDependencies (dependency passes), uniqueness of functions over "
+           "add/remove sequences (oracle clause), which configurations the code refuses (wellFormed). "
            "NOT MODELLED: float rounding of l*a/b (step lengths are exact rationals), the '3R' repeat notation of "
            "expandRepeatedFloats, r.p.stepLength / power inside hooks, MPI workers")
 ASSUMPTIONS = [
@@ -137,7 +140,7 @@ _classes = {}
 
 def rec_classes():
     """Recording Interface subclass (built lazily, after armi is importable)."""
-    if _classes:
+    if "Rec" in _classes:
         return _classes
     from armi import interfaces
 
@@ -656,13 +659,218 @@ def section_steps(ctx):
     ctx.count("step-length inputs", n)
 
 
+
+# --------------------------------------------------------------------------- stack construction rules
+SUBPAIRS = [(2, 1), (5, 4)]          # class 2 derives from class 1, class 5 from class 4
+KFUNC = {0: None, 1: "fA", 2: "fA", 3: "fA", 4: "fB", 5: "fB", 6: None}
+FUNC_ID = {None: "_", "fA": "1", "fB": "2"}
+
+
+def stack_classes():
+    if "K" in _classes:
+        return _classes["K"]
+    from armi import interfaces
+
+    class K0(interfaces.Interface):
+        name = "k"; function = None
+
+        def __init__(self, r, cs, uid, nm):
+            self.name = nm
+            super().__init__(r, cs)
+            self.uid = uid
+
+    class K1(K0): function = "fA"
+    class K2(K1): pass
+    class K3(K0): function = "fA"
+    class K4(K0): function = "fB"
+    class K5(K4): pass
+    class K6(K0): pass
+    _classes["K"] = [K0, K1, K2, K3, K4, K5, K6]
+    return _classes["K"]
+
+
+def show_stack(o, uid_of=None):
+    uid_of = uid_of or (lambda i: i.uid)
+    return "[" + ",".join(f"{uid_of(i)}:{'T' if i.enabled() else 'F'}{'T' if i.bolForce() else 'F'}{'T' if i.reverseAtEOL else 'F'}"
+                          for i in o.interfaces) + "]"
+
+
+def section_stack(ctx):
+    """addInterface / removeInterface / getInterface sequences on a real Operator, and the real createInterfaces."""
+    K = stack_classes()
+    rng = ctx.rng
+    nseq = ctx.pick(40, 600)
+    reqs, impl, cases = [], [], []
+    with common.scratch_dir():
+        with common.quiet():
+            o, r = build_operator({"detailed": False, "nCycles": 1, "burnSteps": [1], "startCycle": 0, "startNode": 0,
+                                   "stack": [], "deferred": [], "deferredCycle": 0, "coupling": False, "maxIters": 1,
+                                   "skip": [], "halt": [], "conv": []}, [])
+        for q in range(nseq):
+            o.removeAllInterfaces()
+            reqs.append("reset " + nested([list(p) for p in SUBPAIRS])); impl.append("ok"); cases.append({"seq": q, "op": "reset"})
+            objs, uid, trace = {}, 0, []
+            for _ in range(rng.randint(4, 14)):
+                x = rng.random()
+                before = list(o.interfaces)
+                if x < 0.6:
+                    uid += 1
+                    k = rng.randint(0, 6)
+                    nm = rng.randint(1, 8) if rng.random() < 0.85 else rng.choice([i.name for i in before] or [1])
+                    nm = nm if isinstance(nm, int) else int(nm[1:])
+                    idx = None if rng.random() < 0.5 else rng.randint(-len(before) - 2, len(before) + 2)
+                    rev, en, bf = rng.random() < 0.3, rng.random() < 0.75, rng.random() < 0.3
+                    obj = K[k](r, o.cs, uid, f"s{nm}")
+                    objs[uid] = obj
+                    op = ["add", uid, nm, KFUNC[k], k, idx, rev, en, bf]
+                    trace.append(op)
+                    try:
+                        with common.quiet():
+                            o.addInterface(obj, index=idx, reverseAtEOL=rev, enabled=en, bolForce=bf)
+                        ans = ("ok " if obj in o.interfaces else "ignored ") + show_stack(o)
+                    except RuntimeError:
+                        ans = "raised"
+                    reqs.append(f"add {uid} {nm} {FUNC_ID[KFUNC[k]]} {k} {'_' if idx is None else idx} {'T' if rev else 'F'} "
+                                f"{'T' if en else 'F'} {'T' if bf else 'F'}")
+                    # oracle: the documented outcome (same name refused; same function: the more derived class wins)
+                    same = [i for i in before if i.function and i.function == KFUNC[k]]
+                    if any(i.name == f"s{nm}" for i in before):
+                        want = "raised"
+                    elif not same:
+                        want = "ok"
+                    elif issubclass(type(same[0]), K[k]):
+                        want = "ignored"
+                    elif issubclass(K[k], type(same[0])):
+                        want = "ok"
+                    else:
+                        want = "raised"
+                    if ans.split()[0] != want:
+                        ctx.fail("stack-add-outcome", "addInterface refuses a second interface of one name, and of one function unless one "
+                                 "class derives from the other (then the more derived one is kept)", {"ops": trace},
+                                 observed=ans.split()[0], expected=want)
+                    # oracle: position and order
+                    after = list(o.interfaces)
+                    if ans.startswith("ok"):
+                        rest = [i for i in after if i is not obj]
+                        kept = [i for i in before if i in rest]
+                        if rest != kept or len(before) - len(rest) > 1:
+                            ctx.fail("stack-add-keeps-order", "addInterface keeps the relative order of the interfaces already attached",
+                                     {"ops": trace}, observed=[i.uid for i in after], expected=[i.uid for i in before])
+                        exp = list(rest)
+                        exp.insert(len(exp) if idx is None else idx, obj)
+                        if exp != after:
+                            ctx.fail("stack-add-position", "the new interface sits at the requested index (list.insert semantics), else last",
+                                     {"ops": trace}, observed=[i.uid for i in after], expected=[i.uid for i in exp])
+                        if (obj.enabled(), obj.bolForce(), obj.reverseAtEOL) != (en, bf, rev):
+                            ctx.fail("stack-add-flags", "enabled / bolForce / reverseAtEOL are as requested", {"ops": trace},
+                                     observed=[obj.enabled(), obj.bolForce(), obj.reverseAtEOL])
+                    elif after != before:
+                        ctx.fail("stack-refused-add-changes-stack", "a refused or ignored addInterface leaves the stack unchanged",
+                                 {"ops": trace}, observed=[i.uid for i in after], expected=[i.uid for i in before])
+                elif x < 0.75:
+                    nm = rng.randint(1, 8)
+                    trace.append(["rmname", nm])
+                    try:
+                        with common.quiet():
+                            ok = o.removeInterface(interfaceName=f"s{nm}")
+                        ans = f"{'T' if ok else 'F'} {show_stack(o)}"
+                    except RuntimeError:
+                        ans = "raised"
+                    reqs.append(f"rmname {nm}")
+                    if ans != "raised" and [i for i in before if i.name != f"s{nm}"] != list(o.interfaces):
+                        ctx.fail("stack-remove", "removeInterface removes exactly the named interface", {"ops": trace},
+                                 observed=[i.uid for i in o.interfaces])
+                elif x < 0.85 and objs:
+                    u = rng.choice(list(objs))
+                    trace.append(["rmobj", u])
+                    with common.quiet():
+                        ok = o.removeInterface(interface=objs[u])
+                    ans = f"{'T' if ok else 'F'} {show_stack(o)}"
+                    reqs.append(f"rmobj {u}")
+                else:
+                    nm = rng.choice([None, rng.randint(1, 8)])
+                    fn = rng.choice([None, "fA", "fB"])
+                    trace.append(["get", nm, fn])
+                    try:
+                        g = o.getInterface(name=None if nm is None else f"s{nm}", function=fn)
+                        ans = "none" if g is None else str(g.uid)
+                    except RuntimeError:
+                        ans = "raised"
+                    reqs.append(f"get {'_' if nm is None else nm} {FUNC_ID[fn]}")
+                    cand = [i for i in before if (nm is not None and i.name == f"s{nm}") or (fn and i.function == fn)]
+                    want = "none" if not cand else str(cand[0].uid) if len(cand) == 1 else "raised"
+                    if ans != want:
+                        ctx.fail("stack-getInterface", "getInterface returns the single interface with that name or function",
+                                 {"ops": trace}, observed=ans, expected=want)
+                impl.append(ans); cases.append({"seq": q, "ops": list(trace)})
+                names = [i.name for i in o.interfaces]
+                if len(set(names)) != len(names):
+                    ctx.fail("stack-names-unique", "no two attached interfaces share a name", {"ops": trace}, observed=names)
+                funcs = [i.function for i in o.interfaces if i.function]
+                if len(set(funcs)) != len(funcs):
+                    ctx.fail("stack-functions-unique", "no two attached interfaces share a function", {"ops": trace}, observed=funcs)
+                ctx.count("stack op " + trace[-1][0] + (" (" + ans.split()[0] + ")" if trace[-1][0] == "add" else ""))
+            ctx.case(("stackseq", q, len(trace)))
+        o.removeAllInterfaces()
+    # ---- the real createInterfaces on real settings
+    from armi import getPluginManagerOrFail
+    from harness import c06
+    variants = [{}, {"db": True}, {"db": True, "tightCoupling": True}, {"burnSteps": 0, "nCycles": 1}, {"genReports": True},
+                {"db": True, "summarizeAssemDesign": True, "nCycles": 3}]
+    with common.scratch_dir():
+        for vi, custom in enumerate(variants[:ctx.pick(4, 6)]):
+            o, r = c06.load_small(custom)
+            raw = []
+            for info in getPluginManagerOrFail().hook.exposeInterfaces(cs=o.cs):
+                raw += info
+            classes = [i.interfaceCls for i in raw]
+            fnames = sorted({c.function for c in classes if c.function})
+            nameid = {n: k + 1 for k, n in enumerate(sorted({c.name for c in classes}))}
+            sub = [[a, b] for a, ca in enumerate(classes) for b, cb in enumerate(classes) if a != b and issubclass(ca, cb)]
+            items = []
+            for u, info in enumerate(raw):
+                c, kw = info.interfaceCls, info.kwargs
+                if set(kw) - {"index", "reverseAtEOL", "enabled", "bolForce"}:
+                    raise common.Infra(f"unexpected addInterface kwargs {kw}")
+                idx = kw.get("index")
+                items.append(f"[{common.rat(info.order)},{u},{nameid[c.name]},{fnames.index(c.function) + 1 if c.function else '_'},{u},"
+                             f"{'_' if idx is None else idx},{'T' if kw.get('reverseAtEOL', False) else 'F'},"
+                             f"{'T' if kw.get('enabled', True) else 'F'},{'T' if kw.get('bolForce', False) else 'F'}]")
+            with common.quiet():
+                o.removeAllInterfaces()
+                try:
+                    o.createInterfaces()
+                    uid_of = lambda i: next(u for u, c in enumerate(classes) if type(i) is c)
+                    ans = "ok " + show_stack(o, uid_of)
+                except RuntimeError:
+                    ans = "raised"
+            reqs += ["reset " + nested(sub), "create [" + ",".join(items) + "]"]
+            impl += ["ok", ans]; cases += [{"create": custom}] * 2
+            if ans != "raised":
+                orders = [next(i.order for i in raw if i.interfaceCls is type(x)) for x in o.interfaces]
+                pos = [next(u for u, c in enumerate(classes) if type(x) is c) for x in o.interfaces]
+                if any(a > b or (a == b and p > q) for (a, p), (b, q) in zip(zip(orders, pos), list(zip(orders, pos))[1:])):
+                    ctx.fail("stack-created-sorted-by-order", "createInterfaces attaches interfaces sorted by ORDER, ties in registration order",
+                             {"settings": custom}, observed=list(zip(orders, pos)))
+            ctx.case(("create", vi), sample={"settings": custom, "stack": [type(x).__name__ for x in o.interfaces]} if vi == 1 else None)
+            ctx.count("createInterfaces on real settings")
+            ctx.count("interfaces created", len(o.interfaces))
+    model = lean_run("IfaceStack", reqs)
+    ctx.compare("IfaceStack vs Operator.addInterface/removeInterface/getInterface/createInterfaces", cases, model, impl)
+    ctx.evaluations += len(reqs)
+
+
 def run(ctx):
+    section_stack(ctx)
     section_arith(ctx)
     section_steps(ctx)
     section_active(ctx)
     section_runs(ctx)
     ctx.exhaustive = False
-    ctx.rule = ("generated run configurations (simple/detailed cycle inputs, zero burn steps, restart points incl. beyond the "
+    ctx.rule = ("stack construction: random addInterface(index/flags, same-name, same-function with derived / base / unrelated "
+                "class) / removeInterface(by name, by object) / getInterface(name, function) sequences on a real Operator, and the "
+                "real createInterfaces on several real settings against the plugin manager's raw InterfaceInfo list; "
+                "generated run configurations (simple/detailed cycle inputs, zero burn steps, restart points incl. beyond the "
                 "end, 1-7 recording interfaces with enabled/bolForce/reverseAtEOL/deferred flags, halting interfaces, real "
                 "TightCouplers with scripted convergence, skipped cycles, cap 0, missing database interface): one case = one "
                 "whole run whose event log is compared exactly; getActiveInterfaces called directly with excluded names; node "
@@ -689,6 +897,10 @@ def check_config(cfg):
 
 def search(ctx, disagreements, broken):
     out = []
+    if any(isinstance(d.case, dict) and ("seq" in d.case or "create" in d.case) for d in disagreements):
+        sub = type(ctx)(ctx.prop, ctx.tier, ctx.seed + 1000)
+        section_stack(sub)
+        out += [Failure(f.key, f.clause, f.case, f.observed, f.expected) for f in sub.failures]
     with common.scratch_dir():
         for d in disagreements[:20]:
             c = d.case
